@@ -25,8 +25,29 @@ TRUSTED = [
     "outcome), the state backends (replaced by a store: a PASS leaves the set states in the executing worker's own pool; "
     "check consults own/shared pool by scope), lazy expansion of flat leaves and replay of previous jobs (not in this model)",
     "virtual-time event loop of the harness (asyncio.SelectorEventLoop subclass)",
+    "harness/pygen.py (Python AST -> Lean `do` block, fails closed) regenerates I2N/Extracted/GenClean.lean on every run "
+    "from the source of TestNode.default_clean_decision (the four tests in front, the is_reversible flag loop as "
+    "List.any, the selection between cleaning at once and the loop over the involved workers); "
+    "cleanDecision_matches_source proves the model's cleanDecision equal to it for every graph, state, copy and worker "
+    "under the explicit encoding ModesEncoded (the one unset mode exported per object stands for the two reads "
+    "unset_mode_images / unset_mode_vms with default unset_mode: the export of harness/travlib.py is tied by the "
+    "correspondence run, not by this theorem).  Trusted: the translator; the atoms (dry_run test, self.is_flat(), "
+    "len(self.cloned_nodes) > 0, worker.id in self.params['name'], self.objects, the two first-character reads are "
+    "total - an empty mode raises IndexError in the real code); the pinned loop over the involved workers (text in "
+    "harness/pygen.py CLEAN_DOOR_BLOCK, mirrored by hand in Props.C05.cleanDoor)",
 ]
 CORPUS = os.path.join(vlib.VERIF, "corpus", PROP)
+
+
+def extract(ctx):
+    """lean/I2N/Extracted/GenClean.lean from /repo's AST (second tie, see harness/pygen.py).  Raises
+    (pygen.Unsupported) when the function left the translated subset or the pinned loop changed: run.py records that
+    as a proof problem."""
+    import pygen
+    if pygen.extract_clean(ctx):
+        ctx.notes.append("I2N/Extracted/GenClean.lean changed: the source of TestNode.default_clean_decision differs from "
+                         "the one the committed file was generated from (cleanDecision_matches_source is re-checked)")
+    ctx.extra["regenerated"] = "lean/I2N/Extracted/GenClean.lean (TestNode.default_clean_decision via harness/pygen.py)"
 
 
 def wellformed(lines):
